@@ -2658,6 +2658,10 @@ func (p *Parser) evaluateSubscript(ctx context) (Expression, error) {
 	}
 
 	if !isSlice {
+		// A single index has no separate end-index (it would be evaluated twice otherwise).
+		if !gotRange {
+			endIndex = nil
+		}
 		return StringSubscript{
 			value:      value,
 			startIndex: startIndex,
